@@ -697,6 +697,11 @@ impl Campaign for C07 {
     fn isolated(&self) -> Vec<Sc07> {
         // unbounded work inside ONE step (the step budget cannot bound it): recorded findings, see DESIGN §7.2
         let mk = |basic: bool, src: &str| Sc07 { basic, knobs: Knobs::default(), src: src.to_string(), input: Val::Unit, script: HostScript::default(), compact_every: 0, after_err: AfterErr::Nothing, max_steps: 200, fault: "none (isolated seed)".into() };
+        let huge = |basic: bool, base: Val, start: i32, src: &str| {
+            let mut sc = mk(basic, src);
+            sc.input = Val::Slice(Box::new(base), Box::new(Val::Range(Box::new(Val::Int(start)), Box::new(Val::Int(i32::MAX)))));
+            sc
+        };
         vec![
             mk(false, "(33 .. 2147483646) ~# (,)"),
             mk(true, "(33 .. 2147483646) ~# (,)"),
@@ -706,6 +711,16 @@ impl Campaign for C07 {
             mk(true, "(100000000000000000000.0 .. 100000000000000000000.0) ~# (,)"),
             mk(false, "(9007199254740992.0 .. 9007199254740993.0) ~# (,)"),
             mk(true, "(9007199254740992.0 .. 9007199254740993.0) ~# (,)"),
+            // a slice of text / bytes whose range spans more than i32::MAX (no literal makes one: the host hands it in
+            // as `$`), rendered as text and as bytes: item counts computed in i32 overflow (seeded change C07-k)
+            huge(false, Val::text("abcdef"), 0, "$ ~# \"\""),
+            huge(true, Val::text("abcdef"), 0, "$ ~# \"\""),
+            huge(false, Val::text("abcdef"), -3, "$ ~# \"\""),
+            huge(true, Val::text("abcdef"), -3, "$ ~# \"\""),
+            huge(false, Val::text("abcdef"), i32::MIN, "$ ~# \"\""),
+            huge(true, Val::text("abcdef"), i32::MIN, "$ ~# \"\""),
+            huge(false, Val::text("abcdef"), -3, "$ ~# :s"),
+            huge(true, Val::text("abcdef"), -3, "$ ~# :s"),
         ]
     }
 
